@@ -21,8 +21,50 @@ use crate::gen::*;
 const TA_REPO: &str = "rsync://r1.verif.test/repo/";
 const CA_REPO: &str = "rsync://r2.verif.test/repo/";
 
+/// RRDP scenario: the directory the children's HTTP double serves from (None: RRDP is disabled in the children).
+static HTTP_ROOT: Mutex<Option<PathBuf>> = Mutex::new(None);
+const NOTIFY: &str = "https://rrdp.verif.test/n/notification.xml";
+
+/// Answers `https://host/path` with the file `<root>/host/path`; ETag = digest of the file, a matching If-None-Match gets 304.
+fn install_file_http(root: PathBuf) {
+    use routinator::verif::HttpReply;
+    routinator::verif::set_http_override(Some(Arc::new(move |u: &str, etag: Option<&[u8]>, _ims: Option<i64>| {
+        let rel = u.strip_prefix("https://").unwrap_or(u);
+        match std::fs::read(root.join(rel)) {
+            Err(_) => HttpReply { status: 404, headers: Vec::new(), body: b"not found".to_vec() },
+            Ok(body) => {
+                let tag = format!("\"{}\"", hexs(&rpki::crypto::DigestAlgorithm::sha256().digest(&body).as_ref()[..12]));
+                if etag == Some(tag.as_bytes()) { HttpReply { status: 304, headers: vec![("ETag".into(), tag)], body: Vec::new() } }
+                else { HttpReply { status: 200, headers: vec![("ETag".into(), tag)], body } }
+            }
+        }
+    })));
+}
+
+/// Writes notification and snapshot (session fixed, the given serial) publishing everything of `published` below CA_REPO.
+fn publish_rrdp(http_root: &Path, published: &Published, serial: u64) {
+    use std::str::FromStr;
+    use rpki::rrdp::{Hash, NotificationFile, PublishElement, Snapshot, UriAndHash};
+    let session = uuid::Uuid::from_u128(0x2323_0000_0000_4000_8000_0000_0000_0023);
+    let elements: Vec<PublishElement> = published.files.iter().filter(|(u, _)| u.starts_with(CA_REPO)).filter_map(|(u, b)| {
+        rpki::uri::Rsync::from_str(u).ok().map(|u| PublishElement::new(u, b.clone()))
+    }).collect();
+    let mut snap = Vec::new();
+    Snapshot::new(session, serial, elements).write_xml(&mut snap).expect("snapshot xml");
+    let snap_uri = format!("https://rrdp.verif.test/n/snapshot-{serial}.xml");
+    let notif = NotificationFile::new(session, serial,
+        UriAndHash::new(rpki::uri::Https::from_str(&snap_uri).expect("uri"), Hash::from_data(&snap)), Vec::new());
+    let mut n = Vec::new();
+    notif.write_xml(&mut n).expect("notification xml");
+    let dir = http_root.join("rrdp.verif.test").join("n");
+    std::fs::create_dir_all(&dir).unwrap();
+    std::fs::write(dir.join(format!("snapshot-{serial}.xml")), snap).unwrap();
+    std::fs::write(dir.join("notification.xml"), n).unwrap();
+}
+
 fn cli_child(argv_file: &str) -> i32 {
     crate::env::install_inproc_rsync();
+    if let Some(root) = std::env::var_os("VERIF_HTTP_ROOT") { install_file_http(PathBuf::from(root)); }
     let argv: Vec<String> = match std::fs::read_to_string(argv_file).ok().and_then(|t| serde_json::from_str(&t).ok()) {
         Some(a) => a,
         None => return 90,
@@ -55,6 +97,13 @@ fn vrp_line(ca: u64, v: u64, f: u64) -> String {
 }
 
 /// TA with two child CAs in another module; version `v` of both CAs.
+/// `world`, both child CAs announcing the RRDP repository NOTIFY.
+fn world_rrdp(v: u64) -> World {
+    let mut w = world(v, false);
+    for c in w.cas.iter_mut().skip(1) { c.notify = Some(NOTIFY.to_string()); }
+    w
+}
+
 pub(crate) fn world(v: u64, ca3_mft_missing: bool) -> World {
     let mut ta = Ca::new("ca1", None, 0, &format!("{TA_REPO}ca1/"));
     ta.prefixes = vec!["0.0.0.0/0".into()];
@@ -90,11 +139,13 @@ fn run_child(bed_root: &Path, cache: &Path, tals: &Path, cmd: &[&str], env: &[(&
 /// As `run_child`, with the child started through `wrapper` (e.g. strace ... --).
 fn run_child_wrapped(bed_root: &Path, cache: &Path, tals: &Path, cmd: &[&str], env: &[(&str, String)], wrapper: &[String]) -> ChildResult {
     use std::os::unix::process::ExitStatusExt;
+    let http_root = HTTP_ROOT.lock().unwrap().clone();
     let mut argv: Vec<String> = vec![
         "routinator".into(), "--repository-dir".into(), cache.to_string_lossy().into(),
         "--no-rir-tals".into(), "--extra-tals-dir".into(), tals.to_string_lossy().into(),
-        "--disable-rrdp".into(), "--validation-threads".into(), "1".into(), "-qq".into(),
+        "--validation-threads".into(), "1".into(), "-qq".into(),
     ];
+    if http_root.is_none() { argv.push("--disable-rrdp".into()); }
     argv.extend(cmd.iter().map(|s| s.to_string()));
     let argv_file = cache.with_extension(format!("argv{}.json", std::process::id()));
     std::fs::write(&argv_file, serde_json::to_string(&argv).unwrap()).unwrap();
@@ -107,6 +158,7 @@ fn run_child_wrapped(bed_root: &Path, cache: &Path, tals: &Path, cmd: &[&str], e
     c.arg("storecrash").arg("--opt").arg(format!("child={}", argv_file.display()))
         .current_dir(bed_root).stdout(Stdio::null()).stderr(Stdio::null());
     for (k, v) in env { c.env(k, v); }
+    if let Some(r) = http_root.as_ref() { c.env("VERIF_HTTP_ROOT", r); }
     let st = c.status().expect("child");
     let _ = std::fs::remove_file(&argv_file);
     ChildResult { code: st.code(), signal: st.signal() }
@@ -194,8 +246,8 @@ pub fn main(args: &Args) -> i32 {
     let mut rep = Report::new("storecrash");
     rep.touch("C23");
     let factory = Arc::new(Factory::new());
-    let scenarios: Vec<&str> = if args.thorough() { vec!["fresh", "update", "attempt", "attempt_then_ok", "server_first"] }
-                               else { vec!["fresh", "update", "attempt"] };
+    let scenarios: Vec<&str> = if args.thorough() { vec!["fresh", "update", "attempt", "attempt_then_ok", "server_first", "rrdp_update"] }
+                               else { vec!["fresh", "update", "attempt", "rrdp_update"] };
     let rep = Arc::new(Mutex::new(rep));
     for sc in scenarios {
         scenario(&rep, &factory, sc, &allowed_point, &allowed_status, args);
@@ -212,7 +264,7 @@ fn judge(local: &mut Report, root: &Path, tals: &Path, crashed: &Path, ctx: &Val
     let crashed = crashed.to_path_buf();
     // classify what is on disk
     let mut files = Vec::new();
-    find_files(&crashed.join("stored").join("rsync"), ".mft", &mut files);
+    find_files(&crashed.join("stored"), ".mft", &mut files);
     let mut classes = BTreeMap::new();
     for f in &files {
         let c = classify_point(f);
@@ -230,7 +282,7 @@ fn judge(local: &mut Report, root: &Path, tals: &Path, crashed: &Path, ctx: &Val
     }
     if had_stored {
         let mut before = Vec::new();
-        find_files(&root.join("base-cache").join("stored").join("rsync"), ".mft", &mut before);
+        find_files(&root.join("base-cache").join("stored"), ".mft", &mut before);
         for f in &before {
             let fname = f.file_name().unwrap().to_string_lossy().into_owned();
             if !classes.contains_key(&fname) {
@@ -301,6 +353,7 @@ fn judge(local: &mut Report, root: &Path, tals: &Path, crashed: &Path, ctx: &Val
 
 fn scenario(rep: &Arc<Mutex<Report>>, factory: &Arc<Factory>, sc: &str,
             allowed_point: &BTreeSet<String>, allowed_status: &BTreeSet<String>, args: &Args) {
+    *HTTP_ROOT.lock().unwrap() = None;
     let bed = TestBed::new();
     let root = bed.dir.path().to_path_buf();
     let tals = bed.tals.clone();
@@ -316,6 +369,25 @@ fn scenario(rep: &Arc<Mutex<Report>>, factory: &Arc<Factory>, sc: &str,
             bed.publish(&world(2, false).build(factory));
             (vec!["vrps", "-o", "out.csv"], 2)
         }
+        // both child CAs live in one RRDP repository; version 2 is a new serial.  The killed run has fetched it (archive
+        // and ETag at serial 2) before it comes to the store; the runs after the kill get "304 Not Modified" and must
+        // still bring every point to version 2
+        "rrdp_update" => {
+            let http = root.join("http");
+            *HTTP_ROOT.lock().unwrap() = Some(http.clone());
+            let p1 = world_rrdp(1).build(factory);
+            bed.publish(&p1);
+            publish_rrdp(&http, &p1, 1);
+            let r = run_child(&root, &base, &tals, &["update"], &[]);
+            if r.code != Some(0) { rep.lock().unwrap().divergence("C23", format!("{sc}: preparing run failed {:?}", r.code)); *HTTP_ROOT.lock().unwrap() = None; return }
+            let mut arch = Vec::new();
+            find_files(&base.join("rrdp"), ".bin", &mut arch);
+            if arch.is_empty() { rep.lock().unwrap().divergence("C23", format!("{sc}: the preparing run left no RRDP archive")); *HTTP_ROOT.lock().unwrap() = None; return }
+            let p2 = world_rrdp(2).build(factory);
+            bed.publish(&p2);
+            publish_rrdp(&http, &p2, 2);
+            (vec!["vrps", "-o", "out.csv"], 2)
+        }
         "attempt" | "attempt_then_ok" => {
             bed.publish(&world(1, true).build(factory));
             let r = run_child(&root, &base, &tals, &["update"], &[]);
@@ -326,7 +398,7 @@ fn scenario(rep: &Arc<Mutex<Report>>, factory: &Arc<Factory>, sc: &str,
         x => panic!("scenario {x}"),
     };
     let ca3_missing = sc == "attempt";
-    let had_stored = matches!(sc, "update" | "server_first");
+    let had_stored = matches!(sc, "update" | "server_first" | "rrdp_update");
     let old_version = if new_version == 2 { 1 } else { 0 };
     // 2. uninterrupted reference run, counting the kill points
     let refc = root.join("caches").join("ref");
@@ -387,11 +459,12 @@ fn scenario(rep: &Arc<Mutex<Report>>, factory: &Arc<Factory>, sc: &str,
     // 4. the same with kills at system-call granularity (strace fault injection): independent of where
     //    the source-level kill points were placed
     // (fresh / attempt: point files are created and their headers written piece by piece: the `write` calls)
-    if sc == "update" || sc == "fresh" || sc == "attempt" || args.thorough() {
+    if sc == "update" || sc == "fresh" || sc == "attempt" || (args.thorough() && sc != "rrdp_update") {
         syscall_pass(rep, sc, &root, &base, &tals, &killed_cmd, &reference, new_version, old_version,
                      allowed_point, allowed_status, had_stored, args);
     }
     let _ = Value::Null;
+    *HTTP_ROOT.lock().unwrap() = None;
 }
 
 const SYSCALLS: &str = "rename,renameat,renameat2,unlink,unlinkat,rmdir,ftruncate,mkdir,mkdirat";
